@@ -28,10 +28,10 @@ func init() {
 
 // frozen guarded-field table (confirmed by reading; DESIGN.md §5 C15)
 var guardTable = map[string][]string{
-	"EventCache": {"evs", "evsCreatedAt", "evsIndex", "deleted"},
-	"safeMap":    {"m"},
-	"reqCounter": {"m"},
-	"reqResponseTimeCounter":                       {"m"},
+	"EventCache":             {"evs", "evsCreatedAt", "evsIndex", "deleted"},
+	"safeMap":                {"m"},
+	"reqCounter":             {"m"},
+	"reqResponseTimeCounter": {"m"},
 	"simpleMaxSubscriptionsMiddlewareBaseCtxValue": {"subs"},
 }
 
